@@ -393,10 +393,45 @@ theorem sSeqFold_nodes (elemF : RTok → List RTok → R (Val × List RTok)) (va
           rw [ih]
           cases seqVals valF r <;> simp [Except.map]
 
+/-- tuple loop over the tokens of a value list without header values: as many elements as the tuple has
+types are read; what is left of the list stays in the stream -/
+theorem sTupFold_nodes (elemF : Ty → RTok → List RTok → R (Val × List RTok)) (valF : Ty → Node → R Val) (rest : List RTok) :
+    ∀ (ts : List Ty) (xs : List Node), (∀ x, x ∈ xs → x.isHdr = false) →
+    (∀ t x, (t, x) ∈ List.zip ts xs → ∀ rest', elemF t (nodeHead x) (nodeTail x ++ rest') = (valF t x).map (fun v => (v, rest'))) →
+    sTupFold elemF ts (lexNodes xs ++ .close :: rest) =
+      (tupVals valF ts xs).map (fun vs => (vs, lexNodes (xs.drop ts.length) ++ .close :: rest))
+  | [], xs, _, _ => by simp [sTupFold, tupVals, Except.map]
+  | t :: r, [], _, _ => by simp [sTupFold, tupVals, lexNodes, rRead, Except.map]
+  | t :: r, x :: xs, hh, H => by
+      have ih := sTupFold_nodes elemF valF rest r xs (fun v' hm => hh v' (List.mem_cons_of_mem _ hm))
+        (fun t' x' hm => H t' x' (by simp [List.zip_cons_cons, hm]))
+      have H1 := H t x (by simp [List.zip_cons_cons])
+      have hl := nodeLeft_nil x (hh x (List.mem_cons_self ..))
+      simp only [lexNodes, lexNode_cons, hl, List.append_nil, List.cons_append, List.append_assoc, tupVals,
+        List.length_cons, List.drop_succ_cons]
+      rcases nodeHead_cases x with ⟨s, h⟩ | ⟨s, h⟩ | h <;>
+      · rw [h] at H1 ⊢
+        simp only [sTupFold, rRead, H1]
+        cases valF t x with
+        | error e => simp [Except.map]
+        | ok v =>
+          simp only [Except.map]
+          rw [ih]
+          cases tupVals valF r xs <;> simp [Except.map]
+
 end Jomini.TextDe
 
 namespace Jomini.TextDe
 open Jomini Jomini.TextDoc
+
+theorem mem_heightTs : ∀ (ts : List Ty) (t : Ty), t ∈ ts → t.height ≤ Ty.heightTs ts
+  | [], t, h => by simp at h
+  | t0 :: r, t, h => by
+      simp only [List.mem_cons] at h
+      rcases h with rfl | h
+      · simp only [Ty.heightTs]; omega
+      · have := mem_heightTs r t h
+        simp only [Ty.heightTs]; omega
 
 theorem lookupIdx_height (name : Bytes) : ∀ (fs : List (Bytes × Ty)) (j i : Nat) (t : Ty),
     lookupIdx name fs j = some (i, t) → t.height ≤ Ty.heightFs fs
@@ -612,6 +647,19 @@ theorem sde_node (enc : Enc) : ∀ (f : Nat) (ty : Ty) (o : Op) (v : Node) (rest
     | @stOnLeaf fs l =>
       obtain ⟨bytes, q⟩ := l
       cases q <;> simp [nodeHead, nodeTail, Leaf.rtok, sde, valueOfN, Except.map]
+    | @tup ts vs hlen hall =>
+      have hwn : wfNodes vs = true := by simpa [Node.wf] using hwf
+      have hex := lexNodes_expand vs
+      have := sTupFold_nodes (fun t tok r => sde enc f t tok .eq r) (fun t x => valueOfN enc f t .eq x) rest ts (expandNodes vs)
+        (fun v hm => (expand_mem vs hwn v hm).2)
+        (fun t x hm rest' => ih t .eq x rest' (hall t x hm) (expand_mem vs hwn x (List.of_mem_zip hm).2).1
+          (by have := mem_heightTs ts t (List.of_mem_zip hm).1; simp [Ty.height] at hh; omega))
+      simp only [nodeHead, nodeTail]
+      rw [sde, valueOfN]
+      rw [hex] at this
+      simp only [List.append_assoc, List.singleton_append] at this ⊢
+      rw [this, List.drop_of_length_le hlen]
+      cases tupVals (fun t x => valueOfN enc f t Op.eq x) ts (expandNodes vs) <;> simp [Except.map, lexNodes, rRead]
 
 /-- the stream path on the reader tokens of a document yields the document's value -/
 theorem deStream_eq_valueOf (enc : Enc) (ty : Ty) (d : Doc) (hroot : Ty.isRoot ty = true)
